@@ -40,7 +40,11 @@ PathsSeq == IF Export = "faults" THEN JsonDeserialize(IOEnv.VH_PATHS) ELSE <<>>
 Paths == {PathsSeq[i] : i \in DOMAIN PathsSeq}
 Singles == Paths \X FaultKinds
 
-ASSUME Export = "shapes" => JsonSerialize(IOEnv.VH_EXPORT, [all |-> Shapes])
+\* enum sweep: every declared number of every enum of the schema, one below zero and one above the largest, each in
+\* an otherwise serializable document (the largest declared numbers come from the live descriptors)
+EnumMax == IF Export = "shapes" THEN JsonDeserialize(IOEnv.VH_ENUMS) ELSE [none |-> 0]
+Sweeps == UNION {{[sweep |-> en, value |-> v] : v \in (-1)..(EnumMax[en] + 1)} : en \in DOMAIN EnumMax}
+ASSUME Export = "shapes" => JsonSerialize(IOEnv.VH_EXPORT, [all |-> Shapes, sweeps |-> Sweeps])
 ASSUME Export = "faults" => JsonSerialize(IOEnv.VH_EXPORT, [all |-> Singles])
 
 \* a one-state machine so that TLC reports the size of what it enumerated
